@@ -83,6 +83,11 @@ def uf_enum(name, cls, arg):
     raise SymbolicOnly('uninterpreted functions exist in symbolic runs only (guard with symbolic_run())')
 
 
+def fresh_list():
+    """a new empty list object (in symbolic runs: one that a loop over a symbolic sequence may append to)"""
+    return []
+
+
 def opaque(tag, *deps):
     raise SymbolicOnly('opaque values exist in symbolic runs only')
 
